@@ -8,6 +8,7 @@ MONITORS = {
     "C04": ["monitors.c04"],
     "C05": ["monitors.c05"],
     "C06": ["monitors.c06"],
+    "C07": ["monitors.c07"],
     "C08": ["monitors.c08"],
     "C09": ["monitors.c09"],
     "C11": ["monitors.c11"],
